@@ -710,6 +710,11 @@ class Searcher(object):
         elif groupedby or reverse or not limit or limit >= self.doc_count():
             # A collector that gathers every matching document
             c = collectors.UnlimitedCollector(reverse=reverse)
+        elif collapse and collapse_order:
+            # Collapsing by an order other than the score can bring back a
+            # document that a top-N collector has already dropped, so gather
+            # every matching document and cut at the limit afterwards
+            c = collectors.UnlimitedCollector(limit=limit)
         else:
             # A collector that uses block quality optimizations and a heap
             # queue to only collect the top N documents
